@@ -42,6 +42,8 @@ pub enum KeyTy {
     NewtypeStr(String),
     /// reader only: `Spanned<String>` as the key type
     SpannedStr,
+    /// reader only: a newtype struct around `Spanned<String>` as the key type
+    NewtypeSpanned(String),
     I64,
     Bool,
     Char,
@@ -133,7 +135,11 @@ impl Ty {
             Ty::Spanned(t) => t.despanned(),
             Ty::Option(t) => Ty::Option(Box::new(t.despanned())),
             Ty::Seq(t) => Ty::Seq(Box::new(t.despanned())),
-            Ty::Map(k, t) => Ty::Map(if *k == KeyTy::SpannedStr { KeyTy::Str } else { k.clone() }, Box::new(t.despanned())),
+            Ty::Map(k, t) => Ty::Map(match k {
+                KeyTy::SpannedStr => KeyTy::Str,
+                KeyTy::NewtypeSpanned(n) => KeyTy::NewtypeStr(n.clone()),
+                k => k.clone(),
+            }, Box::new(t.despanned())),
             Ty::Newtype(n, t) => Ty::Newtype(n.clone(), Box::new(t.despanned())),
             Ty::Tuple(ts) => Ty::Tuple(ts.iter().map(|t| t.despanned()).collect()),
             Ty::TupleStruct(n, ts) => Ty::TupleStruct(n.clone(), ts.iter().map(|t| t.despanned()).collect()),
